@@ -514,6 +514,33 @@ def normalise_loops(body):
         elif isinstance(node, list):
             for x in node:
                 visit(x, False)
+    # a `loop` that is the function's tail expression yields its `break V` values as the function's result: `break V` there is `return V`
+    def tail_loop(node):
+        while isinstance(node, dict) and node.get("k") == "Block" and node.get("expr") is not None:
+            node = node["expr"]
+        return node if isinstance(node, dict) and node.get("k") == "Loop" else None
+
+    def breaks_to_returns(node, loop_id, depth):
+        if isinstance(node, list):
+            for x in node:
+                breaks_to_returns(x, loop_id, depth)
+            return
+        if not isinstance(node, dict):
+            return
+        if node.get("k") == "Closure":
+            return
+        inner = depth + (1 if node.get("k") in ("Loop", "While", "For") and node.get("id") != loop_id else 0)
+        if node.get("k") == "Break" and "e" in node and (node.get("target") == loop_id or (node.get("target") is None and depth == 0)):
+            v = node["e"]
+            node.clear()
+            node.update({"k": "Ret", "e": v, "ty": "!", "sp": v.get("sp")})
+            return
+        for v in node.values():
+            if isinstance(v, (dict, list)):
+                breaks_to_returns(v, loop_id, inner)
+    tl = tail_loop(body.get("body"))
+    if tl is not None:
+        breaks_to_returns(tl.get("body"), tl.get("id"), 0)
     visit(body.get("body"), True)
 
 
